@@ -193,7 +193,7 @@ structure PState where
   conns : List Conn
   /-- upstream exchanges started so far: (server, protocol, start) -/
   log : List (Nat × Xch)
-  deriving Repr, Inhabited
+  deriving DecidableEq, Repr, Inhabited
 
 def server (cfg : Cfg) (i : Nat) : Server := cfg.servers.getD i ⟨true, 0, none, none⟩
 
@@ -266,6 +266,10 @@ inductive RoundOut
   | done (r : Res) (st : PState)
   | next (st : PState)
   deriving Repr, Inhabited
+
+def RoundOut.state : RoundOut → PState
+  | .done _ st => st
+  | .next st => st
 
 /-- one iteration of the `loop` of `try_send` -/
 def round (cfg : Cfg) (deadline : Nat) (st : PState) : RoundOut :=
